@@ -61,7 +61,8 @@ def base_spec():
     U = L.asset('U', sup='T', steps=[], category='Main')
     X = L.asset('X', steps=[L.step('t', 'or'), L.step('victim', 'or', reaches=[astep('t')])],
                 variables=[('vv', union(fld('q'), fld('s')))], category='Main')
-    sp = L.spec([T, U, X], [L.assoc('PQ', 'X', 'p', L.MANY, 'X', 'q', L.MANY), L.assoc('RS', 'X', 'r', L.MANY, 'T', 's', L.MANY)],
+    sp = L.spec([T, U, X], [L.assoc('PQ', 'X', 'p', L.MANY, 'X', 'q', L.MANY), L.assoc('RS', 'X', 'r', L.MANY, 'T', 's', L.MANY),
+                                L.assoc('PQ', 'X', 'p2', L.MANY, 'X', 'q2', (0, 1))],
                 lang_id='verif.c04', version='0.0.1')
     return sp
 
